@@ -257,6 +257,11 @@ def _tp_family(p):
             m[(k + 1) % d, k] = 1
             out.append(m)
         return out
+    if cons == "with-zero-operator":  # a Kraus family that lists an identically zero operator (a Pauli channel with a zero-probability term,
+        # amplitude damping at gamma = 0): the environment index of the zero operator is still an index of the complementary output
+        ks = U.stinespring(rng, d, d, max(r - 1, 1), field)
+        pos = 0 if r <= 2 else len(ks) // 2
+        return ks[:pos] + [np.zeros((d, d), dtype=ks[0].dtype)] + ks[pos:]
     if cons == "pauli-mixed-dtype":  # the Pauli channel as a user would write it: float I, X, Z and a complex Y (narrower dtype first)
         return [0.5 * np.eye(2), 0.5 * np.array([[0.0, 1.0], [1.0, 0.0]]), 0.5 * np.array([[0, -1j], [1j, 0]]), 0.5 * np.array([[1.0, 0.0], [0.0, -1.0]])]
     if cons == "isometries-mixed-dtype":  # integer 0/1 operator first, then a float one, then complex ones
@@ -528,6 +533,10 @@ def cases(tier, seed):
         add("comp.entry", dict(d=d, r=1, cons="unitary", entries="complex", seed=seed), "complementary_channel/unitary", d > 1)
         add("comp.spectrum", dict(d=d, r=1, cons="unitary", seed=seed), "complementary_channel/unitary", d > 1)
     add("comp.entry", dict(d=2, r=4, cons="pauli-dyadic", entries="sym", seed=seed), "complementary_channel/dyadic/symbolic-rho")
+    for d in (2, 3):
+        for r in (2, 3):
+            for cl in ("comp.entry", "comp.trace", "comp.spectrum"):
+                add(cl, dict(d=d, r=r, cons="with-zero-operator", entries="complex", field="complex", seed=seed), "complementary_channel/zero-operator-in-family")
     for d in (2, 3, 4):
         for cons in ("pauli-mixed-dtype", "isometries-mixed-dtype"):
             if cons == "pauli-mixed-dtype" and d != 2:
